@@ -151,6 +151,15 @@ def run(prog, chk):
                 "a value containing them does not survive toString + parse" % (sorted(need), missing))
     else:
         chk.ok("C15.d", ae, "reader-special bytes %s are all escaped by the writer (stop set %s)" % (sorted(need), sorted(stop)), "%s:%s" % (ae.file, ae.line), "case labels vs findOneOf set + cases", evals=len(need))
+    # every byte the scan stops at is consumed by the statement after the switch (`p = e + 1`): it must have been emitted by an arm
+    has_default = any(not isinstance(v, int) for v in wv)
+    dropped = sorted(b for b in stop if b not in writer)
+    if dropped and not has_default:
+        chk.bad("C15.d", ae, "stop-byte-without-arm:" + ",".join(str(b) for b in dropped), ae.where(wsw[0]),
+                "the scan stops at the bytes %s but the switch has no arm (and no default) for %s: the byte is skipped without being written, "
+                "the serialised string loses it" % (sorted(stop), dropped))
+    else:
+        chk.ok("C15.d", ae, "every stop byte %s has an emitting arm" % sorted(stop), ae.where(wsw[0]), "findOneOf set vs case labels", evals=len(stop))
     for b, seq in sorted(writer.items()):
         ok = len(seq) == 2 and seq[0] == 92 and reader_esc.get(seq[1]) is not None and (reader_esc[seq[1]] == b)
         # group arms (case '"': case '\\': case '/':) append *pos.pos, i.e. the label itself
